@@ -122,6 +122,8 @@ def ensure_oracle():
     """builds .cache/oracle.json from the pinned data (once per version of data + parser)"""
     os.makedirs(CACHE, exist_ok=True)
     key = tree_hash(VERIF, subdirs=["lib/ucd.py", "data/SHA256SUMS"])
+    if os.environ.get("VERIF_DATA"):
+        key = "perturbed-" + tree_hash(os.environ["VERIF_DATA"])
     path = os.path.join(CACHE, "oracle-%s.json" % key)
     with Lock("oracle"):
         if not os.path.exists(path):
@@ -345,6 +347,22 @@ def run_tlc(module, cfg=None, modules_dir=None, extra_files=(), env=None, worker
     finally:
         if not keep:
             shutil.rmtree(run_dir, ignore_errors=True)
+
+
+def run_tlapm(module_file, timeout=600):
+    """checks the TLAPS proofs of spec/proofs/<module_file> in a scratch copy; returns the number of obligations proved"""
+    run_dir = os.path.join(CACHE, "tlaps-%d-%d" % (os.getpid(), int(time.time() * 1000) % 10 ** 9))
+    os.makedirs(run_dir, exist_ok=True)
+    try:
+        shutil.copy(os.path.join(SPEC, "proofs", module_file), run_dir)
+        r = sh(["timeout", str(timeout), "tlapm", "--threads", "4", module_file], cwd=run_dir)
+        m = re.search(r"All (\d+) obligations? proved", r.stdout)
+        if r.returncode != 0 or not m:
+            print(r.stdout[-2000:])
+            tool_error("tlapm did not prove all obligations of %s" % module_file)
+        return int(m.group(1))
+    finally:
+        shutil.rmtree(run_dir, ignore_errors=True)
 
 
 def tlc_must_succeed(res, what):
